@@ -1,9 +1,12 @@
 import Pfl
-#print axioms Pfl.CFG.interRegex_lang
-#print axioms Pfl.CFG.interD_lang
-#print axioms Pfl.PDA.inter_lang
-#print axioms Pfl.PDA.accFinal_iff
-#print axioms Pfl.PDA.accEmpty_iff
+#print axioms Pfl.CFG.treeValid_sound
+#print axioms Pfl.CFG.treeValid_complete
+#print axioms Pfl.CFG.wellFormedT_gen
+#print axioms Pfl.CFG.leftStep_derives
+#print axioms Pfl.CFG.rightStep_derives
+#print axioms Pfl.CFG.derivationValid_sound
+#print axioms Pfl.CFG.leftmostD_valid
+#print axioms Pfl.CFG.rightmostD_valid
 #print axioms Pfl.CFG.cfgMem_iff
-#print axioms Pfl.ENFA.member_iff
 #print axioms Pfl.CFG.toNormalForm_lang
+#print axioms Pfl.CFG.llParse_valid
